@@ -191,6 +191,28 @@ Proof.
   apply iter_loop_np.
 Qed.
 
+Lemma hash_at_ok i : ord_at t i < ti_count t -> exists h, hash_at t i = Ok h.
+Proof.
+  intro H. unfold hash_at.
+  destruct (12 * ord_at t i + 12 <=? 12 * ti_count t + 20) eqn:E; [eexists; reflexivity | lia].
+Qed.
+
+Lemma resolve_loop_np fuel ds : forall i u acc, resolve_loop fuel t ds i u acc <> Panic.
+Proof.
+  induction fuel as [|f IH]; intros i u acc; cbn [resolve_loop]; [discriminate|].
+  destruct (i <? u); [|discriminate].
+  destruct (ti_count t <=? ord_at t i) eqn:E; [discriminate|].
+  destruct (hash_at_ok i) as [h Hh]; [lia|]. rewrite Hh. cbn [bind]. apply IH.
+Qed.
+
+Lemma resolve_np short : valid_short short = true -> resolve t short <> Panic.
+Proof.
+  intro V. unfold resolve. rewrite V. cbn [negb].
+  destruct (13 <=? blen short).
+  - destruct (_ =? ti_count t); [discriminate | apply resolve_loop_np].
+  - apply resolve_loop_np.
+Qed.
+
 End Table.
 
 (* For EVERY index the parser can produce (indeed for every [tindex]), every file content, every
@@ -199,13 +221,15 @@ End Table.
 Theorem no_panic_table :
   forall crc file t,
     (forall h, has t h <> Panic) /\ (forall h, get crc file t h <> Panic)
-    /\ (forall hs, get_many t hs <> GMCrash) /\ iterate crc file t <> Panic.
+    /\ (forall hs, get_many t hs <> GMCrash) /\ iterate crc file t <> Panic
+    /\ (forall short, valid_short short = true -> resolve t short <> Panic).
 Proof.
   intros crc file t. repeat split.
   - intro h. apply has_np.
   - intro h. apply get_np.
   - intro hs. apply get_many_np.
   - apply iterate_np.
+  - intros short V. first [exact (resolve_np t short V) | exact (resolve_np crc t short V)].
 Qed.
 
 (* ---- what a successful lookup hands out -------------------------------------------------- *)
@@ -294,11 +318,23 @@ Example regression_length_gt_iter_buffer :
   exists t, open_table w_len_big 3 = Ok t /\ iterate crc32c w_len_big t = Err.
 Proof. eexists. split; [vm_compute; reflexivity | vm_compute; reflexivity]. Qed.
 
-(* STILL unguarded: hashAt (table_index.go:444-453, reached from ResolveShortHash :600) slices
-   ti.suffixes with the tuple's ordinal without comparing it with count. *)
-Theorem hash_at_refuted :
-  exists file cnt t idx, open_table file cnt = Ok t /\ idx < ti_count t /\ hash_at t idx = Panic.
-Proof. exists w_ord_gt, 3. eexists. exists 1. split; [vm_compute; reflexivity|]. split; vm_compute; reflexivity. Qed.
+(* ResolveShortHash: an ordinal > count used to reach hashAt's unguarded slice (panic); a >= 13
+   character prefix matching the LAST index tuple used to run the equal-prefix scan past count on
+   a VALID file.  After a794b79 the first is ErrInvalidTableFile and the second resolves. *)
+Definition b32_chr (d : N) : N := if d <? 10 then d + 48 else d + 87.
+Definition w_last_hash : bytes := [222; 237; 235; 151; 180; 80; 10; 188; 98; 213; 39; 210; 25; 98; 28; 170; 111; 18; 16; 147].
+
+Example regression_resolve_short_hash :
+  (exists t, open_table w_ord_gt 3 = Ok t /\ hash_at t 1 = Panic /\ resolve t [49] = Err /\ resolve t [118] = Ok [])
+  /\ (exists t, open_table w_file 3 = Ok t
+       /\ resolve t (map b32_chr (firstn 13 (enc_digits 32 (be w_last_hash)))) = Ok [w_last_hash]
+       /\ resolve t (map b32_chr (firstn 3 (enc_digits 32 (be w_last_hash)))) = Ok [w_last_hash]
+       /\ resolve t [118; 118] = Ok []).
+Proof.
+  split; eexists.
+  - split; [vm_compute; reflexivity|]. split; [vm_compute; reflexivity|]. split; vm_compute; reflexivity.
+  - split; [vm_compute; reflexivity|]. split; [vm_compute; reflexivity|]. split; vm_compute; reflexivity.
+Qed.
 
 (* two 6-byte chunks of equal compressed length; in s_file' the two records are exchanged *)
 Definition s_file : bytes :=
@@ -486,9 +522,9 @@ Proof. vm_compute. reflexivity. Qed.
    the model never violates the no-crash half of the oracle
    ===================================================================== *)
 
-Theorem oracle_model : forall i, oracle i (model_obs i) = true.
+Theorem oracle_model : forall i, input_wf i = true -> oracle i (model_obs i) = true.
 Proof.
-  intros [file cnt addrs | data | data]; unfold oracle, model_obs.
+  intros [file cnt addrs | data | data | file cnt shorts] Hwf; unfold oracle, model_obs.
   - unfold table_obs. pose proof (no_panic_open_table file cnt) as Ho.
     destruct (open_table file cnt) as [t| |]; [| reflexivity | contradiction].
     cbn [o_open o_res o_iter o_gm o_class].
@@ -505,4 +541,11 @@ Proof.
     destruct cl; reflexivity.
   - unfold manifest_obs. pose proof (no_panic_manifest data) as Hm.
     destruct (parse_manifest data); [reflexivity | reflexivity | contradiction].
+  - unfold resolve_obs. pose proof (no_panic_open_table file cnt) as Ho.
+    destruct (open_table file cnt) as [t| |]; [| reflexivity | contradiction].
+    cbn [o_open o_res o_iter o_gm o_class o_recs forallb andb negb N.eqb].
+    apply forallb_forall. intros r Hin. apply in_map_iff in Hin as [sh [<- Hs]].
+    cbn [input_wf] in Hwf. rewrite forallb_forall in Hwf.
+    assert (Hr : resolve t sh <> Panic) by (first [exact (resolve_np t sh (Hwf _ Hs)) | exact (resolve_np crc32c t sh (Hwf _ Hs))]).
+    destruct (resolve t sh); [reflexivity | reflexivity | contradiction].
 Qed.
